@@ -78,6 +78,28 @@ func mustLoad(repo, verif string) *Engine {
 type target struct {
 	fn *ssa.Function
 	ct *Contract
+	lm *Lemma
+}
+
+func (t target) display() string {
+	if t.lm != nil {
+		return "lemma." + t.lm.Name
+	}
+	return funcDisplay(t.fn)
+}
+
+func (t target) props() []string {
+	if t.lm != nil {
+		return t.lm.Props
+	}
+	return t.ct.Props
+}
+
+func (eng *Engine) build(t target) (*VC, error) {
+	if t.lm != nil {
+		return eng.lemmaVC(t.lm)
+	}
+	return eng.buildVC(t.fn, t.ct)
 }
 
 func (eng *Engine) targets() []target {
@@ -93,9 +115,14 @@ func (eng *Engine) targets() []target {
 		if ct.Trusted {
 			continue
 		}
-		out = append(out, target{fn, ct})
+		out = append(out, target{fn: fn, ct: ct})
 	}
-	sort.Slice(out, func(i, j int) bool { return funcDisplay(out[i].fn) < funcDisplay(out[j].fn) })
+	for _, lm := range eng.cs.Lemmas {
+		if !lm.Axiom {
+			out = append(out, target{lm: lm})
+		}
+	}
+	sort.Slice(out, func(i, j int) bool { return out[i].display() < out[j].display() })
 	return out
 }
 
@@ -114,6 +141,10 @@ func (eng *Engine) staleContracts() []string {
 
 func cmdList(eng *Engine) {
 	for _, t := range eng.targets() {
+		if t.lm != nil {
+			fmt.Printf("%-60s %v lemma\n", t.display(), t.props())
+			continue
+		}
 		fmt.Printf("%-60s %v requires=%d ensures=%d loops=%d\n", funcDisplay(t.fn), t.ct.Props, len(t.ct.Requires), len(t.ct.Ensures), len(t.ct.Loops))
 	}
 	for _, s := range eng.staleContracts() {
@@ -123,17 +154,8 @@ func cmdList(eng *Engine) {
 
 func (eng *Engine) verifyOne(t target, workDir string, timeoutMs int, thorough bool) *FuncResult {
 	start := time.Now()
-	fr := &FuncResult{Fn: funcDisplay(t.fn), Key: funcKey(t.fn), Props: t.ct.Props, NClauses: len(t.ct.Requires) + len(t.ct.Ensures)}
-	for _, l := range t.ct.Loops {
-		fr.NClauses += len(l.Invariants)
-		if l.Decreases != nil {
-			fr.NClauses++
-		}
-	}
-	if p := t.fn.Pos(); p.IsValid() {
-		fr.File = shortFile(eng.fset.Position(p).Filename)
-	}
-	vc, err := eng.buildVC(t.fn, t.ct)
+	fr := eng.newFuncResult(t)
+	vc, err := eng.build(t)
 	fr.GenTime = time.Since(start).Seconds()
 	if err != nil {
 		fr.Err = err.Error()
@@ -154,6 +176,23 @@ func (eng *Engine) verifyOne(t target, workDir string, timeoutMs int, thorough b
 	return fr
 }
 
+func (eng *Engine) newFuncResult(t target) *FuncResult {
+	if t.lm != nil {
+		return &FuncResult{Fn: t.display(), Key: t.lm.Name, Props: t.lm.Props, NClauses: 1, File: shortFile(t.lm.File)}
+	}
+	fr := &FuncResult{Fn: funcDisplay(t.fn), Key: funcKey(t.fn), Props: t.ct.Props, NClauses: len(t.ct.Requires) + len(t.ct.Ensures)}
+	for _, l := range t.ct.Loops {
+		fr.NClauses += len(l.Invariants)
+		if l.Decreases != nil {
+			fr.NClauses++
+		}
+	}
+	if p := t.fn.Pos(); p.IsValid() {
+		fr.File = shortFile(eng.fset.Position(p).Filename)
+	}
+	return fr
+}
+
 func cmdVerify(eng *Engine, name string, dump bool, timeoutMs int, verbose bool) int {
 	if timeoutMs == 0 {
 		timeoutMs = 10000
@@ -161,13 +200,13 @@ func cmdVerify(eng *Engine, name string, dump bool, timeoutMs int, verbose bool)
 	rc := 0
 	found := false
 	for _, t := range eng.targets() {
-		d := funcDisplay(t.fn)
-		if name != "" && d != name && !strings.HasSuffix(d, "."+name) && funcKey(t.fn) != name {
+		d := t.display()
+		if name != "" && d != name && !strings.HasSuffix(d, "."+name) && (t.fn == nil || funcKey(t.fn) != name) {
 			continue
 		}
 		found = true
 		if dump {
-			vc, err := eng.buildVC(t.fn, t.ct)
+			vc, err := eng.build(t)
 			if err != nil {
 				fmt.Println("ERROR:", err)
 				return 1
